@@ -46,6 +46,8 @@ struct FnDecl {
     pred_binder: bool,
     /// the bounded type of the where predicates is written in parentheses: `where (D): A + B`
     paren_bounded: bool,
+    /// ... in two pairs of parentheses: `where ((D)): A + B`
+    paren_double: bool,
 }
 
 impl FnDecl {
@@ -71,6 +73,8 @@ impl FnDecl {
                 } else {
                     format!("D: {}, for<'x> D: L<'x>", rest.join(" + "))
                 }
+            } else if self.paren_bounded && self.paren_double {
+                format!("((D)): {}", part.join(" + "))
             } else if self.paren_bounded {
                 format!("(D): {}", part.join(" + "))
             } else {
@@ -131,7 +135,7 @@ pub fn gen_case(t: &mut Tape, feature_unimock: bool) -> Case {
             // `impl A + B` has no name for the dependency's type
             bounds.retain(|b| *b != 9);
         }
-        fns.push(FnDecl { name: format!("f{i}"), by_value: t.chance(1, 5), bounds, form, maybe_sized: t.chance(1, 6), is_async: t.chance(1, 5), paren_mask: if t.chance(1, 4) { t.raw() & 0x3f } else { 0 }, pred_binder: t.flip(), paren_bounded: t.chance(1, 5) });
+        fns.push(FnDecl { name: format!("f{i}"), by_value: t.chance(1, 5), bounds, form, maybe_sized: t.chance(1, 6), is_async: t.chance(1, 5), paren_mask: if t.chance(1, 4) { t.raw() & 0x3f } else { 0 }, pred_binder: t.flip(), paren_bounded: t.chance(1, 5), paren_double: t.chance(1, 3) });
     }
     // mock settings (never exported here: the derivations stay inert, but they decide which types get the impl)
     let mock_api = t.chance(1, 3);
